@@ -24,7 +24,7 @@ from vlib import nn
 RULE = ("cells = (configuration, null population or null law); every distinct ordering / every sequence of the cell is "
         "executed; a cell is non-trivial if the population is non-constant and some ordering gives q < 1; distinct = "
         "hash of (configuration, sorted population | law, n)")
-REQUIRED = ["cells:perm", "cells:iid", "orderings_run", "sequences_run", "cells_where_test_can_reject",
+REQUIRED = ["cells:perm", "cells:iid", "cells:audit", "audit_orderings_run", "orderings_run", "sequences_run", "cells_where_test_can_reject",
             "cells_boundary_mean"] + \
            [f"perm:{nn.label({'test': a, 'estim': b, 'bet': c})}" for a, b, c in nn.COMBOS
             if a not in ("kaplan_markov", "kaplan_wald")] + \
@@ -36,8 +36,8 @@ ASSUMPTIONS = ["populations and laws use dyadic values so that totals are exact 
                "Monte-Carlo cell of the thorough tier with a stated 1e-9 false-alarm bound per cell"]
 EXHAUSTIVE = "every cell enumerates all distinct orderings of its population (M1) or all k^n sequences of its law (M2)"
 SHARD_TIMEOUT = {"quick": 1200, "thorough": 14000}
-BUDGET = {"quick": {"perm_cells": 9600, "iid_cells": 3200, "nmax": 8, "iid_n": (5, 7), "mc_cells": 0},
-          "thorough": {"perm_cells": 40000, "iid_cells": 12000, "nmax": 11, "iid_n": (6, 9), "mc_cells": 96}}
+BUDGET = {"quick": {"perm_cells": 9600, "iid_cells": 3200, "nmax": 8, "iid_n": (5, 7), "mc_cells": 0, "audit_cells": 160, "audit_n": 6},
+          "thorough": {"perm_cells": 40000, "iid_cells": 12000, "nmax": 11, "iid_n": (6, 9), "mc_cells": 96, "audit_cells": 1600, "audit_n": 7}}
 PERM_COMBOS = [c for c in nn.COMBOS if c[0] not in ("kaplan_markov", "kaplan_wald")]
 IID_COMBOS = [c for c in nn.COMBOS if c[0] != "kaplan_kolmogorov"]
 
@@ -46,6 +46,7 @@ def plan(tier, seed):
     shards = 16
     b = BUDGET[tier]
     out = [{"perm_cells": b["perm_cells"] // shards, "iid_cells": b["iid_cells"] // shards, "mc_cells": 0,
+            "audit_cells": b["audit_cells"] // shards, "audit_n": b["audit_n"],
             "nmax": b["nmax"], "iid_n": list(b["iid_n"]), "shard": i} for i in range(shards)]
     if b["mc_cells"]:
         per = b["mc_cells"] // shards
@@ -178,6 +179,8 @@ def run_shard(spec, rec):
         n = rng.randint(1, spec["iid_n"][1] if len(atoms) == 2 else spec["iid_n"][0])
         run_case({"kind": "iid", "cfg": cfg, "atoms": atoms, "weights": [[w.numerator, w.denominator] for w in ws],
                   "n": n}, rec)
+    for i in range(spec.get("audit_cells", 0)):
+        run_case(gen_audit_cell(rng, spec["audit_n"]), rec)
     for i in range(spec.get("mc_cells", 0)):
         combo = nn.COMBOS[(i + spec["shard"]) % len(nn.COMBOS)]
         finite = combo[0] not in ("kaplan_markov", "kaplan_wald")
@@ -221,6 +224,8 @@ def first_excess(qw, total):
 
 def run_case(case, rec):
     kind = case["kind"]
+    if kind == "audit":
+        return run_audit_cell(case, rec)
     cfg = case["cfg"]
     lab = nn.label(cfg)
     obj = nn.build(cfg)
@@ -332,3 +337,111 @@ def run_mc(case, rec, obj, lab):
                           {"alpha": a, "rejections": k, "reps": reps, "binomial_tail": tail, "N": len(pop),
                            "population_counts": {str(k_): int(v) for k_, v in Counter(pop.tolist()).items()}})
             break
+
+
+# ---- M4: audit-level exact count -----------------------------------------------------------------------------------
+def gen_audit_cell(rng, nmax):
+    """A tiny card-comparison audit whose REPORTED outcome is wrong: the CVRs say `a` beat `b`, the cards themselves say
+    b has at least as many votes.  Every ordering of the cards is audited through the real mvrs_to_data / set_p_values /
+    summarize_status; the fraction of orderings in which the audit completes must not exceed the risk limit."""
+    from vlib import election as E
+    n = rng.randint(3, nmax)
+    kind = rng.choice(("plurality", "plurality", "supermajority"))
+    share = rng.choice((0.5, 0.25)) if kind == "supermajority" else None
+    at = rng.choice(("CARD_COMPARISON", "CARD_COMPARISON", "ONEAUDIT"))
+    test, estim, bet, kw = rng.choice(E.TESTS_FOR[at])
+    true_votes = []
+    # truth: b >= a (plurality) / a <= share of valid votes (super-majority)
+    nb = rng.randint((n + 1) // 2, n)
+    for i in range(n):
+        true_votes.append({"1b": 1} if i < nb else rng.choice(({"1a": 1}, {"1a": 1}, {})))
+    rng.shuffle(true_votes)
+    cards = []
+    for i, tv in enumerate(true_votes):
+        # the CVR overstates a: some true b / blank votes are recorded as a
+        cv = {"1a": 1} if rng.random() < 0.75 else dict(tv)
+        cards.append({"id": f"1-1-{i + 1}", "votes": {"con1": cv}, "tally_pool": "1-1", "pool": (at == "ONEAUDIT" and rng.random() < 0.5)})
+    if at == "ONEAUDIT":
+        p0 = cards[0]["pool"]
+        for cd in cards:
+            cd["pool"] = p0
+    spec = {"use_style": rng.random() < 0.5, "max_cards": n,
+            "contests": {"con1": {"kind": kind, "candidates": ["1a", "1b"], "winner": ["1a"], "n_winners": 1, "share": share,
+                                  "risk_limit": rng.choice((0.05, 0.1, 0.2, 0.5)), "audit_type": at, "test": test, "estim": estim,
+                                  "bet": bet, "test_kwargs": dict(kw), "cards": n}},
+            "cards": cards, "phantom_pool": [None, False],
+            "mvrs": {str(i): {"kind": "votes", "votes": {"con1": tv}} for i, tv in enumerate(true_votes)},
+            "sample_nums": {"kind": "explicit", "nums": None}, "sn_mode": "list_order"}
+    if rng.random() < 0.2:
+        spec["mvrs"][str(rng.randrange(n))] = {"kind": "phantom"}
+    return {"kind": "audit", "spec": spec}
+
+
+def run_audit_cell(case, rec):
+    import contextlib
+    import io
+    from vlib import election as E
+    es = case["spec"]
+    ok, sim = rec.guard("c01.audit.setup", lambda: E.Sim(es).setup())
+    if not ok:
+        rec.case(case, nontrivial=False)
+        return
+    con = sim.contests["con1"]
+    n = len(sim.cvr_list)
+    # is the assertion really false for the cards (oracle)?  mean of the reference assorter over the manual records <= 1/2
+    name, asn = next(iter(con.assertions.items()))
+    Abar = sum(sim.ref_A(i, "con1", name) for i in range(n)) / n
+    if Abar > 0.5:
+        rec.case(case, nontrivial=False)
+        rec.count("audit_cells_outcome_actually_right_skipped")
+        return
+    A = sim.L["Assertion"]
+    mv = [sim.mvr_for(i) for i in range(n)]
+    for i, c in enumerate(sim.cvr_list):
+        c.sample_num = i
+    con.sample_size = n
+    con.sample_threshold = n
+    sink = io.StringIO()
+    qw, done_count, n_ord = [], 0, 0
+    labels = [repr((sorted(sim.cvr_list[i].votes.get("con1", {}).items()), sorted((mv[i].votes.get("con1") or {}).items()), mv[i].phantom, sim.cvr_list[i].pool)) for i in range(n)]
+    with np.errstate(all="ignore"), contextlib.redirect_stdout(sink):
+        for o in distinct_orderings(labels):
+            # map the ordering of labels back to card indices (cards with equal labels are interchangeable)
+            pool_ix = {}
+            for i, l in enumerate(labels):
+                pool_ix.setdefault(l, []).append(i)
+            idx = [pool_ix[l].pop(0) for l in o]
+            m = [mv[i] for i in idx]
+            c = [sim.cvr_list[i] for i in idx]
+            A.reset_p_values(sim.contests)
+            ok, _ = rec.guard("c01.audit.call:set_p_values", A.set_p_values, sim.contests, m, c)
+            if not ok:
+                return
+            ok, done = rec.guard("c01.audit.call:summarize_status", sim.audit.summarize_status, sim.contests)
+            if not ok:
+                return
+            hs = [float(v) for v in np.asarray(asn.p_history, dtype=float) if v == v]
+            q = min([float(asn.p_value)] + hs) if (asn.p_value == asn.p_value) else (min(hs) if hs else 1.0)
+            qw.append((q, 1, idx))
+            done_count += 1 if done else 0
+            n_ord += 1
+    rec.count("cells:audit")
+    rec.count("audit_orderings_run", n_ord)
+    can = any(q < 1 for q, _, _ in qw)
+    rec.case(case, nontrivial=can, sample={"n": n, "contest": {k: es["contests"]["con1"][k] for k in ("kind", "audit_type", "test", "estim", "bet", "risk_limit")},
+                                            "cvrs": [c["votes"] for c in es["cards"]], "truth": [es["mvrs"][str(i)] for i in range(n)]})
+    if can:
+        rec.count("cells_where_test_can_reject")
+    lab = f"audit:{es['contests']['con1']['test']}" + (":" + es["contests"]["con1"]["estim"] if es["contests"]["con1"]["estim"] else "") + \
+          (":" + es["contests"]["con1"]["bet"] if es["contests"]["con1"]["bet"] else "")
+    rl = con.risk_limit
+    if done_count / n_ord > rl * (1 + 1e-9) + 1e-12:
+        rec.violation("c01.audit", f"{lab}:wrong_outcome_confirmed_too_often",
+                      {"risk_limit": rl, "fraction_of_orderings_completing": done_count / n_ord, "orderings": n_ord,
+                       "assorter_mean_of_the_cards": Abar})
+        return
+    bad = first_excess([(q, w) for q, w, _ in qw], n_ord)
+    if bad:
+        a, frac, cnt = bad
+        rec.violation("c01.audit", f"{lab}:excess_rejection_probability", {"alpha": a, "P(q<=alpha)": frac, "orderings": n_ord,
+                                                                          "assorter_mean_of_the_cards": Abar})
